@@ -252,7 +252,8 @@ Inductive daction :=
 | DSpawnRelease (c : nat)     (* let the child's PreStart return *)
 | DStop (a : nat)             (* go a.Shutdown() *)
 | DRelease (a : nat)          (* let a's PostStop return *)
-| DRestart (a : nat).         (* a.Restart() of a running actor while nothing else is going on *)
+| DRestart (a : nat)          (* a.Restart() of a running actor while nothing else is going on *)
+| DSuspend (a : nat).         (* a goes into suspension (a fault its supervisor has no directive for) *)
 
 Fixpoint first_some {A B} (f : A -> option B) (l : list A) : option B :=
   match l with
@@ -300,6 +301,7 @@ Definition drive1 (ws : bool) (s : st) (d : daction) : option st :=
                end
   | DRelease a => step ws s (LPostEnd a)
   | DRestart _ => None
+  | DSuspend _ => None
   end.
 
 (* None result of drive1 = the action is refused by the implementation too (SpawnChild on a
@@ -319,6 +321,10 @@ Definition restart_ok (gated : list nat) (n : nat) (s : st) (a : nat) : bool :=
 Definition drive (ws : bool) (gated : list nat) (n : nat) (s : st) (d : daction) : st * nat :=
   match d with
   | DRestart a => (s, if restart_ok gated n s a then 0 else 1)
+  (* suspension does not exist for the stop protocol: a suspended actor still has its running bit,
+     Shutdown and freeChildren treat it exactly like a running one, so what the harness observes
+     ("alive" = running bit set and not stopping) is unchanged, now and in every later stop *)
+  | DSuspend a => (s, if is_running (acts s a) && quiet_actor (acts s a) then 0 else 1)
   | _ =>
     match drive1 ws s d with
     | Some s' => (quiesce ws gated n (64 * S n) s', 0)
